@@ -146,7 +146,10 @@ func (exp *SplitExp) FindTypedRefs(list []*BoundReference,
 			return list, err
 		}
 	case *DisabledExp:
-		list, err := val.Value.FindTypedRefs(list, t, lookup)
+		// The collection which is split is the value, unless it is disabled.
+		enabled := *exp
+		enabled.Value = val.Value
+		list, err := enabled.FindTypedRefs(list, t, lookup)
 		if err != nil {
 			return list, err
 		}
